@@ -58,6 +58,11 @@ func LeafSpecs() []*Spec {
 		out = append(out, &Spec{Kind: k, EnumS: []string{"a", "b"}, EnumNames: sn})
 	}
 	out = append(out, &Spec{Kind: KStrEnum, EnumS: []string{"", "1", "true"}})
+	// enum schemas written as struct literals: nil display values for unnamed members, a partly named one
+	out = append(out, &Spec{Kind: KIntEnum, EnumI: []int64{1, 2}, Literal: true},
+		&Spec{Kind: KIntEnum, EnumI: []int64{1, 2}, Units: "sec", EnumNames: map[string]string{"1": "One"}, Literal: true},
+		&Spec{Kind: KStrEnum, EnumS: []string{"a", "b"}, Literal: true},
+		&Spec{Kind: KTypedEnum, EnumS: []string{"a", "b"}, EnumNames: map[string]string{"b": "B"}, Literal: true})
 	return out
 }
 
@@ -306,6 +311,24 @@ func ScopeSpecs() []*Spec {
 	out = append(out, &Spec{Kind: KScope, Root: "L", Objects: []*Spec{
 		{Kind: KObject, ID: "L", Props: []Prop{{Name: "next", Type: ref("L")}}},
 	}})
+	out = append(out, SameIDChainSpecs()...)
+	return out
+}
+
+// SameIDChainSpecs: finite chains of single-property objects (the lone-value shorthand passes through all of them).
+func SameIDChainSpecs() []*Spec {
+	ref := func(id string) *Spec { return &Spec{Kind: KRef, RefID: id} }
+	// chains of DIFFERENT single-property objects that carry the same id (ids are unique within a scope only): an
+	// object used directly as a property type, and an embedded scope whose root is named like the enclosing root
+	out := []*Spec{}
+	out = append(out, &Spec{Kind: KObject, ID: "S", Props: []Prop{{Name: "item", Type: &Spec{Kind: KObject, ID: "S", Props: []Prop{
+		{Name: "value", Type: &Spec{Kind: KInt, Min: I64(0)}, Required: true}}}, Required: true}}})
+	out = append(out, &Spec{Kind: KScope, Root: "root", Objects: []*Spec{
+		{Kind: KObject, ID: "root", Props: []Prop{{Name: "inner", Type: &Spec{Kind: KScope, Root: "root", Objects: []*Spec{
+			{Kind: KObject, ID: "root", Props: []Prop{{Name: "leaf", Type: ref("leaf")}}},
+			{Kind: KObject, ID: "leaf", Props: []Prop{{Name: "value", Type: &Spec{Kind: KString, Min: I64(1)}, Required: true}}},
+		}}}}},
+	}})
 	return out
 }
 
@@ -335,6 +358,16 @@ func Depth1() []*Spec {
 		{Name: "on", Type: &Spec{Kind: KString}},
 		{Name: "off", Type: &Spec{Kind: KString}, Disabled: true, DisabledNoReason: true},
 		{Name: "offd", Type: &Spec{Kind: KString}, Disabled: true, DisabledNoReason: true, Default: Str("\"x\"")},
+	}})
+	// disabled by Disable() on the finished object's property (a mutator; whatever the object computed at construction
+	// time must not make it differ from the same schema rebuilt from its description)
+	out = append(out, &Spec{Kind: KObject, ID: "Dis3", Props: []Prop{
+		{Name: "on", Type: &Spec{Kind: KString}},
+		{Name: "offd", Type: &Spec{Kind: KString}, Disabled: true, DisabledLate: true, Default: Str("\"x\"")},
+	}})
+	out = append(out, &Spec{Kind: KObject, ID: "Dis4", Props: []Prop{
+		{Name: "on", Type: &Spec{Kind: KString}},
+		{Name: "off", Type: &Spec{Kind: KInt}, Disabled: true, DisabledLate: true},
 	}})
 	out = append(out, &Spec{Kind: KObject, ID: "Empty"})
 	out = append(out, &Spec{Kind: KObject, ID: "Enums", Props: []Prop{
